@@ -26,6 +26,9 @@ class Ctx(object):
         c = list(np.unravel_index(p, shape))
         per = set(self.case.get('periodic') or [])
         out = []
+        iso = set(self.case.get('isolated', [])) if self.case.get('adj') == 'holes' else set()
+        if p in iso:
+            return []
         if self.case.get('adj', 'grid') == 'diag':
             offs = [o for o in itertools.product((-1, 0, 1), repeat=len(shape)) if any(o)]
         else:
@@ -44,7 +47,7 @@ class Ctx(object):
                         cc[a] %= shape[a]
                     else:
                         ok = False
-            if ok:
+            if ok and int(np.ravel_multi_index(cc, shape)) not in iso:
                 out.append(int(np.ravel_multi_index(cc, shape)))
         return out
 
